@@ -267,7 +267,8 @@ func c13Concurrent(ch *zsim.Choices, trace bool) *RunResult {
 		n = []uint32{2, 0, 1, 3, 5, 8}[ch.Intn(6)]
 		cs = &countingSampler{inner: &zerolog.BasicSampler{N: n}, tick: &tick, directBy: map[int]bool{}}
 		lgLevel := []zerolog.Level{zerolog.InfoLevel, zerolog.DebugLevel}[ch.Intn(2)]
-		lg := c13Derive(ch, zerolog.New(sink).Level(lgLevel).Sample(cs), sink)
+		var lg zerolog.Logger
+		c13WhileDisabled(ch, func() { lg = c13Derive(ch, zerolog.New(sink).Level(lgLevel).Sample(cs), sink) })
 		s.ArmDraw([]string{"sampler.go", "log.go", "globals.go"})
 		nTasks := 2 + ch.Intn(4)
 		phases := 1 + ch.Weighted(2, 1, 1)
@@ -426,6 +427,20 @@ func c13Concurrent(ch *zsim.Choices, trace bool) *RunResult {
 	})
 }
 
+// c13WhileDisabled builds the logger, in some runs while DisableSampling(true) is
+// in force: the switch suspends sampling for the events logged while it is on,
+// it does not change which sampler a logger derived meanwhile carries.
+func c13WhileDisabled(ch *zsim.Choices, build func()) {
+	if ch.Chance(1, 4) {
+		zerolog.DisableSampling(true)
+		build()
+		zerolog.DisableSampling(false)
+		zsim.Probe("derived_while_sampling_disabled")
+		return
+	}
+	build()
+}
+
 // ---------- mode B ----------
 
 func c13Sequential(ch *zsim.Choices, trace bool) *RunResult {
@@ -439,7 +454,8 @@ func c13Sequential(ch *zsim.Choices, trace bool) *RunResult {
 		smp, model := genSampler(ch, 0)
 		sink := &c13Sink{got: map[string]int{}}
 		lgLevel := []zerolog.Level{zerolog.TraceLevel, zerolog.InfoLevel}[ch.Intn(2)]
-		lg := c13Derive(ch, zerolog.New(sink).Level(lgLevel).Sample(smp), sink)
+		var lg zerolog.Logger
+		c13WhileDisabled(ch, func() { lg = c13Derive(ch, zerolog.New(sink).Level(lgLevel).Sample(smp), sink) })
 		calls := 5 + ch.Intn(36)
 		summary = fmt.Sprintf("mode=sequential sampler=%v calls=%d logger-level=%v", model, calls, lgLevel)
 		zsim.Log("config: %s", summary)
